@@ -49,6 +49,9 @@ NOT_YET = 'check not built yet in this round (design in DESIGN.md §5); no claim
 
 def main():
     CHECKS = collect()
+    # only checks the lead has accepted (tools/ready.txt, one id per line) are claimed in MANIFEST
+    ready = set(open(os.path.join(VERIF, 'tools', 'ready.txt')).read().split())
+    CHECKS = {k: v for k, v in CHECKS.items() if k in ready}
     merge_known()
     checks = []
     for pid in ALL:
